@@ -30,6 +30,8 @@ pub enum ROp {
     Prog(Prog),
     /// one item of an iteration that asks for another concrete type than the file holds: an error item
     WrongType,
+    /// random access that asks for another concrete type than the file holds: a type-mismatch error (readers with an index)
+    NthWrong(usize),
 }
 
 fn op_name(o: &ROp) -> String {
@@ -42,15 +44,18 @@ fn op_name(o: &ROp) -> String {
         ROp::ReadAll => "ReadAll".into(),
         ROp::Prog(p) => format!("Iter[{}]", p.name()),
         ROp::WrongType => "IterAsAnotherType(1)".into(),
+        ROp::NthWrong(i) => format!("NthAsAnotherType({})", i),
     }
 }
 fn op_from(s: &str) -> Option<ROp> {
-    let all: Vec<ROp> = (0..3).map(ROp::Iter).chain([ROp::Iter(ALL)]).chain((0..=N).map(ROp::Nth)).chain((0..=N).map(ROp::Seek)).chain([ROp::Count, ROp::ReadAll]).chain(PROGS.iter().map(|p| ROp::Prog(*p))).chain([ROp::WrongType]).collect();
+    let all: Vec<ROp> = (0..3).map(ROp::Iter).chain([ROp::Iter(ALL)]).chain((0..=N).map(ROp::Nth)).chain((0..=N).map(ROp::Seek)).chain([ROp::Count, ROp::ReadAll]).chain(PROGS.iter().map(|p| ROp::Prog(*p))).chain([ROp::WrongType]).chain((0..=N).map(ROp::NthWrong)).collect();
     all.into_iter().find(|o| op_name(o) == s)
 }
 
 /// action codes
 const WRONG: u8 = 14 + PROGS.len() as u8;
+/// NWRONG + i = NthWrong(i), i in 0..=N
+const NWRONG: u8 = WRONG + 1;
 fn decode(b: u8) -> ROp {
     match b {
         0..=2 => ROp::Iter(b as usize),
@@ -60,6 +65,7 @@ fn decode(b: u8) -> ROp {
         12 => ROp::Count,
         13 => ROp::ReadAll,
         WRONG => ROp::WrongType,
+        b if b >= NWRONG => ROp::NthWrong((b - NWRONG) as usize),
         _ => ROp::Prog(PROGS[b as usize - 14]),
     }
 }
@@ -243,6 +249,10 @@ fn drive<T: std::io::Read + std::io::Seek>(r: &mut ShapeReader<T>, ops: &[ROp], 
             ROp::Seek(k) => Ans::Unit(r.seek(*k).map_err(|e| err_kind(&e))),
             ROp::Count => Ans::Count(r.shape_count().map_err(|e| err_kind(&e))),
             ROp::ReadAll => unreachable!(),
+            ROp::NthWrong(i) => {
+                let a = if recs[0].shape.ty.family() == Family::Point { crate::with_ty!(Ty::PolygonZ, S => r.read_nth_shape_as::<S>(*i).map(|x| x.map(|_| usize::MAX).map_err(|e| err_kind(&e))), unreachable!()) } else { r.read_nth_shape_as::<shapefile::Point>(*i).map(|x| x.map(|_| usize::MAX).map_err(|e| err_kind(&e))) };
+                Ans::Nth(a)
+            }
             ROp::WrongType => {
                 let first = if recs[0].shape.ty.family() == Family::Point { crate::with_ty!(Ty::PolygonZ, S => r.iter_shapes_as::<S>().next().map(|x| x.map(|_| usize::MAX).map_err(|e| err_kind(&e))), unreachable!()) } else { r.iter_shapes_as::<shapefile::Point>().next().map(|x| x.map(|_| usize::MAX).map_err(|e| err_kind(&e))) };
                 match first {
@@ -324,7 +334,7 @@ pub fn observe(case: &Case, fx: &Fixture) -> Vec<Ans> {
                     },
                     ROp::Seek(k) => Ans::Unit(r.seek(*k).map_err(|e| err_kind(&e))),
                     ROp::Count => Ans::Count(r.shape_count().map_err(|e| err_kind(&e))),
-                    ROp::Nth(_) => unreachable!(),
+                    ROp::Nth(_) | ROp::NthWrong(_) => unreachable!(),
                     ROp::WrongType => {
                         let first = if fx.recs[0].shape.ty.family() == Family::Point { crate::with_ty!(Ty::PolygonZ, S => r.iter_shapes_and_records_as::<S, shapefile::dbase::Record>().next().map(|x| x.map(|_| usize::MAX).map_err(|e| err_kind(&e))), unreachable!()) } else { r.iter_shapes_and_records_as::<shapefile::Point, shapefile::dbase::Record>().next().map(|x| x.map(|_| usize::MAX).map_err(|e| err_kind(&e))) };
                         match first {
@@ -451,6 +461,21 @@ pub fn judge(case: &Case, answers: &[Ans]) -> Vec<(String, String)> {
                     return fail("random-access", format!("returned {:?} beyond the end", a));
                 }
             }
+            (ROp::NthWrong(k), Ans::Nth(a)) => {
+                // a random access that cannot deliver its record: a type-mismatch error inside the index, nothing beyond
+                // it; what was not consumed is still not consumed, and a restart from the first record is allowed
+                if *k < N {
+                    if !matches!(a, Some(Err(e)) if e.starts_with("MismatchShapeType")) {
+                        return fail("typed-random-access", format!("returned {:?}, expected a type-mismatch error", a));
+                    }
+                    p.push(0);
+                    p.sort_unstable();
+                    p.dedup();
+                    prev_kind = "mismatch-random-access";
+                } else if a.is_some() {
+                    return fail("typed-random-access", format!("returned {:?} beyond the end", a));
+                }
+            }
             (ROp::Seek(k), Ans::Unit(a)) => {
                 if !indexed {
                     if !matches!(a, Err(e) if e == "MissingIndexFile") {
@@ -486,10 +511,11 @@ fn j_of(op: &ROp) -> usize {
 }
 
 /// `progs`: indices into PROGS of the adaptor programs in the alphabet
-fn enabled(h: &Hist, progs: &[u8]) -> Vec<u8> {
+/// `nwrong`: the indices i for which NthWrong(i) is in the alphabet (shape reader with an index)
+fn enabled(h: &Hist, progs: &[u8], nwrong: &[u8]) -> Vec<u8> {
     let p = progs.iter().map(|i| 14 + *i);
     match KINDS[h[0] as usize] {
-        Kind::ShapeReaderShx => (0..13).chain(p).chain([WRONG]).collect(),
+        Kind::ShapeReaderShx => (0..13).chain(p).chain([WRONG]).chain(nwrong.iter().map(|i| NWRONG + *i)).collect(),
         Kind::Complete => [0, 1, 2, 3, 8, 9, 10, 11, 12, 13].into_iter().chain(p).chain([WRONG]).collect(),
         Kind::ShapeReaderNoShx => [0, 1, 2, 3, 4, 8, 12].into_iter().chain(p).collect(),
         Kind::CompleteNoShx => [0, 1, 2, 3, 8, 12, 13].into_iter().chain(p).collect(),
@@ -582,7 +608,7 @@ pub fn check(tier: Tier) -> i32 {
             inits.clone(),
             CFG,
             depth,
-            Arc::new(move |h: &Hist| enabled(h, &progs)),
+            Arc::new(move |h: &Hist| enabled(h, &progs, if depth >= 5 || only_kind.is_none() { &[2] } else { &[1, 2] })),
             Arc::new(move |h, ctx| {
                 let case = Case::from_hist(h, &ty2);
                 let fx = &f2[h[2] as usize][case.layout as usize];
@@ -623,7 +649,7 @@ pub fn check(tier: Tier) -> i32 {
             tier,
             level: "model_checking",
             engine: "E1 stateright BFS over reader call histories on the real ShapeReader / Reader; oracle = set-valued cursor model (RefReader)",
-            rule: "every sequence up to the depth bound over {Iter(0), Iter(1), Iter(2), Iter(all), Nth(0..3), Seek(0..3), Count} and 14 programs that drive a new iterator through the std adaptors an iterator type may override (nth(k) then next; next, nth(k), next; nth, nth; skip(k); next then skip; step_by(2); last; next then last; count; nth(usize::MAX) fresh and after a next), judged against the same program over the plain sequence of remaining records; for readers with an index also IterAsAnotherType(1): one item of an iteration (pair iteration on the complete Reader) that asks for another concrete type than the file holds, which must be one type-mismatch error, after which an iteration goes on behind that record or from it, pairs aligned; base alphabet: (ShapeReader with index, 13 actions), {Iter*, Seek*, Count, ReadAll} (complete Reader, 10 actions; the same over a shape reader without index, where seek and count must answer MissingIndexFile), {Iter*, Nth(0), Seek(0), Count} (ShapeReader without index: the last three must answer MissingIndexFile) x files of 3 records with pairwise different sizes, with equal sizes, and (readers with an index) stored out of order with fillers between them behind sources returning at most 3 bytes per read, and (ShapeReader with index) at byte offsets beyond 2^31 and 3*2^30 on a sparse source, x types; non-trivial = >= 2 operations",
+            rule: "every sequence up to the depth bound over {Iter(0), Iter(1), Iter(2), Iter(all), Nth(0..3), Seek(0..3), Count} and 14 programs that drive a new iterator through the std adaptors an iterator type may override (nth(k) then next; next, nth(k), next; nth, nth; skip(k); next then skip; step_by(2); last; next then last; count; nth(usize::MAX) fresh and after a next), judged against the same program over the plain sequence of remaining records; for readers with an index also IterAsAnotherType(1): one item of an iteration (pair iteration on the complete Reader) that asks for another concrete type than the file holds, which must be one type-mismatch error, after which an iteration goes on behind that record or from it, pairs aligned; for the shape reader with an index also NthAsAnotherType(2) (thorough depth-4 passes: NthAsAnotherType(1) too): a random access that asks for another concrete type, which must be a type-mismatch error, after which a new iteration yields what was not consumed before it or everything from the first record; base alphabet: (ShapeReader with index, 13 actions), {Iter*, Seek*, Count, ReadAll} (complete Reader, 10 actions; the same over a shape reader without index, where seek and count must answer MissingIndexFile), {Iter*, Nth(0), Seek(0), Count} (ShapeReader without index: the last three must answer MissingIndexFile) x files of 3 records with pairwise different sizes, with equal sizes, and (readers with an index) stored out of order with fillers between them behind sources returning at most 3 bytes per read, and (ShapeReader with index) at byte offsets beyond 2^31 and 3*2^30 on a sparse source, x types; non-trivial = >= 2 operations",
             bounds: json!({"depth": tier.pick("4 (all 14 adaptor programs)", "5 (5 adaptor programs) and 4 (all 14)"), "records": N, "types": types.iter().map(|t| t.name()).collect::<Vec<_>>()}),
             exhaustive: true,
             assumptions: vec!["the model is non-deterministic after a partial iteration exactly as the statement is: a further iteration may continue or restart".into()],
